@@ -200,6 +200,13 @@ def expandRemovable (xs ys : Option Shape) (const : Option (List Int)) (eOut bOu
         | none => .noInfo
   | _, _ => .noShapes
 
+/-- Which rule objects `_make_expand_before_binary_op_rules` generates: `_ExpandSecondInput` for all 19 ops,
+`_ExpandFirstInput` for all but `PRelu` (commit dd5f7df: PRelu's output has X's shape, the slope is only
+unidirectionally broadcastable).  `side` 0 = Expand on the first operand.  `useSet` = the exported rule set is
+applied (as opposed to the single rule object for that side). -/
+def expandRuleFires (op : String) (side : Nat) (useSet : Bool) (v : ExpandVerdict) : Bool :=
+  v.removable && !(useSet && side == 0 && op == "PRelu")
+
 /-! ## Python list slicing / indexing (used on `ir.Shape`) -/
 
 def pyClamp (n : Nat) (i : Int) : Nat :=
